@@ -27,13 +27,24 @@ StaticFails(ev) ==
 Canon(X) == [ X EXCEPT !.internal = InternalFrom([ i \in ModifiedIdx(X) |-> ModsAt(X, i) ]) ]
 
 (* k = "variable": apply_variable_mods(A, rules, maxMods, mode) = ev.res (a list of annotations) *)
+(* an upper bound, capped at 10^6, on the number of forms any mode can return: every matched residue takes one of the   *)
+(* groups offered to it or none, and so does each terminus (max_mods only lowers the number)                          *)
+CapMul(a, b) == IF a * b > 1000000 THEN 1000000 ELSE a * b
+FormsBound(A, vr, nr, cr) ==
+    LET perSite == [ i \in 1..NRes(A) |-> 1 + Len(Options(A, vr, i - 1)) ]
+        terms(rs) == 1 + FoldLeft(LAMBDA acc, r : acc + Len(r.groups), 0, rs) IN
+    CapMul(CapMul(FoldLeft(LAMBDA acc, f : CapMul(acc, f), 1, perSite), terms(nr)), terms(cr))
+
 VariableFails(ev) ==
     LET A == ev.A
         vr == Rules(ev.irules)  nr == TermRules(ev.nrules)  cr == TermRules(ev.crules)
         got == [ k \in 1..Len(ev.res) |-> Canon(ev.res[k]) ]
         gotSet == SeqToSet(got)
         matched == UNION { MatchSites(A.seq, vr[k]) : k \in 1..Len(vr) } IN
-    IF ev.out # "ret" THEN {"raised_" \o ev.out}
+    (* "hang": the call was stopped after 20 s of CPU time. Judged only where at most 50 000 forms can exist at all -    *)
+    (* a large enumeration may legitimately take that long and is left unjudged                                         *)
+    IF ev.out = "hang" THEN (IF FormsBound(A, vr, nr, cr) <= 50000 THEN {"small_enumeration_did_not_finish"} ELSE {})
+    ELSE IF ev.out # "ret" THEN {"raised_" \o ev.out}
     ELSE (IF Cardinality(gotSet) # Len(got) THEN {"form_returned_twice"} ELSE {})
          \cup (IF Canon(A) \notin gotSet THEN {"unmodified_form_missing"} ELSE {})
          \cup (IF \E X \in gotSet : X.seq # A.seq THEN {"residues_changed"} ELSE {})
